@@ -1163,6 +1163,9 @@ func (e *Exec) foreignGlobalStore(st *State, fr *Frame, x *ssa.Store) {
 	if g == nil {
 		return
 	}
+	if fn := x.Parent(); fn != nil && strings.HasPrefix(fn.Name(), "init") {
+		return // package initialisation runs before any goroutine of this program
+	}
 	path := g.Pkg.Pkg.Path()
 	what := e.eng.srcText(x.Pos())
 	e.oblige(st, "lockset", fmt.Sprintf("write:foreign-global:%s.%s:%s", path, g.Name(), what), False, x.Pos(), []string{"C18"},
